@@ -1,3 +1,13 @@
+//! vh-p2p — C31 (peer slots and reputation) and C32 (serving peers: cached
+//! view, request limits, codec) on the real `fuel-core-p2p` crate.
+mod c31;
+mod c32;
+
 fn main() {
-    mcx::machinery_failure("not built yet");
+    let cli = mcx::Cli::parse();
+    match cli.property.as_str() {
+        "C31" => c31::run(&cli),
+        "C32" => c32::run(&cli),
+        other => mcx::machinery_failure(&format!("vh-p2p does not serve {other}")),
+    }
 }
